@@ -332,3 +332,6 @@ fn c08_canary() {
     let v = g.at(&Coor4D([10.0, 1.5, 0.0, 0.0]), 0.0).unwrap();
     assert!(v[0] == 128.0, "canary: nearest-corner instead of bilinear");
 }
+
+// (a convexity harness -- symbolic corner values at three fixed positions inside a cell, result within [min, max] of
+//  the corners -- did not finish in 1800 s: sums of symbolic f64 products against min/max; withdrawn, clause undecided)
